@@ -85,7 +85,7 @@ def extract(repo=REPO, profile="dev"):
         # prune older fact dirs (keep the cache small)
         olds = sorted((d for d in os.listdir(CACHE) if d.startswith("facts-")),
                       key=lambda d: os.path.getmtime(os.path.join(CACHE, d)))
-        for d in olds[:-6]:
+        for d in olds[:-80]:      # ~12 MB each; the thorough tier replays every seeded / benign variant
             shutil.rmtree(os.path.join(CACHE, d), ignore_errors=True)
         work = tempfile.mkdtemp(prefix="ruschm-facts-")
         try:
